@@ -148,7 +148,7 @@ Definition parse_inscription (s : bytes) : pi_res :=
   | DErr _ => PIErr
   | DPanic | DFuel => PIPanic
   | DOk p =>
-      if (lenN s <? 25) || negb (Fees.is_p2pkh_inscription_parts p) then PIErr
+      if (lenN s <? 25) || negb (Fees.is_p2pkh (firstn 25 s)) || negb (Fees.is_p2pkh_inscription_parts p) then PIErr
       else
         match idx p 11, idx p 9 with
         | Some data, Some ct =>
